@@ -197,6 +197,37 @@ def run():
     ctx0.drift = []
     fncommon.validate(ctx0, r2, "Trace_Romberg", "stg", nshards=1)
     t.check("returned Romberg value changed by one ulp -> that run is rejected (drift)", [d["case"] for d in ctx0.drift] == [rrows[j]["id"]])
+    tc = [c for c in c09.gen(ctx0, rng0, 300) if c["routine"] == "tanhsinh" and not c["cx"]][:20]
+    for k, c in enumerate(tc):
+        c["id"] = k + 1
+        c["keep"] = 6000
+    trows = [{k: r[k] for k in keys} for r in fncommon.observe(ctx0, "quad", tc, "stt", nproc=1)]
+    tenv = {"VH_TABLES": tab}
+    ctx0.drift = []
+    fncommon.validate(ctx0, trows, "Trace_TanhSinh", "stt", nshards=1, env=tenv)
+    t.check("clean integrate() (tanh-sinh) traces explained through TanhSinhStop + the shipped table", not ctx0.drift and len(trows) == 20, "%d runs" % len(trows))
+    j = next(k for k, r in enumerate(trows) if r["calls"] >= 20 and r["ret"] == "ok")
+    t2 = copy.deepcopy(trows)
+    t2[j]["evals"] = t2[j]["evals"][:-6]
+    t2[j]["calls"] -= 6
+    ctx0.drift = []
+    fncommon.validate(ctx0, t2, "Trace_TanhSinh", "stt", nshards=1, env=tenv)
+    t.check("tanh-sinh run cut short by three node pairs -> that run is rejected (drift)", [d["case"] for d in ctx0.drift] == [trows[j]["id"]])
+    from checks import c08
+    sc8 = c08.steff(rng0, 12)
+    for k, c in enumerate(sc8):
+        c["id"] = k + 1
+    s8 = fncommon.observe(ctx0, "iter", sc8, "sts8", nproc=1)
+    s8 = [{"id": r["id"], "method": r["method"], "start": r["start"], "tol": r["tol"], "n_max": r["n_max"], "obs": r["obs"]} for r in s8]
+    ctx0.drift = []
+    fncommon.validate(ctx0, s8, "Trace_Steffensen", "sts8", nshards=1)
+    t.check("clean steffensen() traces explained bit for bit by Steffensen over doubles", not ctx0.drift and len(s8) == 24, "%d runs" % len(s8))
+    j = next(k for k, r in enumerate(s8) if r["obs"]["nf"] >= 4 and r["obs"]["ret"] == "ok")
+    s82 = copy.deepcopy(s8)
+    s82[j]["obs"]["gevals"][2][0] = bump(s82[j]["obs"]["gevals"][2][0], 1)
+    ctx0.drift = []
+    fncommon.validate(ctx0, s82, "Trace_Steffensen", "sts8", nshards=1)
+    t.check("one steffensen abscissa changed by one ulp -> that run is rejected (drift)", [d["case"] for d in ctx0.drift] == [s8[j]["id"]])
     # ---- binding: IVP contract trace -----------------------------------------------------------------
     ctx = vlib.Ctx("SELFTEST", "quick", 1, "other")
     rng = random.Random(7)
